@@ -796,7 +796,20 @@ pub fn hades_table() -> Vec<Sc> {
     out
 }
 
+thread_local! {
+    /// When set, selectors are (almost always) fresh random field elements: circuits whose
+    /// description carries many distinct scalars per row (C15's scalar-dictionary bounds).
+    static DENSE_SELECTORS: std::cell::Cell<bool> = const { std::cell::Cell::new(false) };
+}
+
+pub fn set_dense_selectors(on: bool) {
+    DENSE_SELECTORS.with(|d| d.set(on));
+}
+
 pub fn small_sel(rng: &mut Rng) -> Sc {
+    if DENSE_SELECTORS.with(|d| d.get()) && rng.chance(7, 8) {
+        return rng.scalar();
+    }
     let pooled = CONST_POOL.with(|p| {
         let p = p.borrow();
         if !p.is_empty() && rng.chance(1, 5) {
